@@ -186,11 +186,13 @@ with SqliteImpl.impl_store.impl_manager as impl:
 
     @impl(ops.is_nan)
     def _is_nan(x):
-        return False
+        # there is no nan: false (null for null); a SQL expression, so that it can be negated and ordered by
+        return x != x
 
     @impl(ops.is_not_nan)
     def _is_not_nan(x):
-        return True
+        # there is no nan: true (null for null); a SQL expression, so that it can be negated and ordered by
+        return x == x
 
     @impl(ops.cbrt)
     def _cbrt(x):
